@@ -221,6 +221,10 @@ func NewInstance(base string) *Instance {
 		in.P = bluemonday.StrictPolicy()
 	case "striptags":
 		in.P = bluemonday.StripTagsPolicy()
+	case "zero":
+		// "It is possible that the developer has created the policy via: p := bluemonday.Policy{}"
+		// (sanitize.go): the zero value is supported and initialises itself lazily
+		in.P = &bluemonday.Policy{}
 	default:
 		panic("harness: unknown base " + base)
 	}
